@@ -2,10 +2,13 @@ CONSTANTS
   Kinds = {"plain", "ecs", "cd", "ecscd"}
   Borns = {"msg", "wire"}
   Flags <- MCFlags
-  MaxSteps = 6
+  Shapes = {"v4", "v6", "zero", "empty"}
+  MaxSteps = 7
+  Births = TRUE
   LoseMarker = FALSE
+  EmptyUnmarked = FALSE
+  SubLosesMarker = FALSE
 INIT Init
 NEXT Next
-
 
 CHECK_DEADLOCK FALSE
